@@ -33,7 +33,7 @@ Inductive op :=
 | OPresence (mid : N) (key channel : bytes) (status : bool) (changes : N)   (* 0 absent, 1 true, 2 false *)
 | OPing
 | OEnd (how : N)
-| OReopen.
+| OReopen (subid : N).             (* a new connection in this slot; its id exists from the accept on *)
 
 Record counter := Ctr { k_ssid : list N; k_chan : bytes }.
 Record conn := Conn { cn_sub : N; cn_user : bytes; cn_will : option will; cn_connected : bool;
@@ -349,7 +349,7 @@ Definition step (e : env) (b : broker) (i : N) (o : op) : broker :=
   let b0 := B (b_trie b) (b_conns b) (b_store b) (b_seq b) (b_queue b) [] in
   let r :=
     match o, get_conn (b_conns b0) (N.to_nat i) with
-    | OReopen, _ => with_conn b0 i conn0
+    | OReopen subid, _ => with_conn b0 i (Conn subid [] None false [] [])
     | OConnect user w subid, Some c =>
       emit (with_conn b0 i (Conn subid user w true (cn_ctrs c) (cn_links c))) i (PConnack 0)
     | OSub mid topic qos, Some c =>
@@ -382,7 +382,8 @@ Definition step (e : env) (b : broker) (i : N) (o : op) : broker :=
     end in
   dispatch e r.
 
-Definition broker0 (n : N) : broker := B (ix_empty X) (repeat (Some conn0) (N.to_nat n)) [] 0 [] [].
+Definition broker0 (subs : list N) : broker :=
+  B (ix_empty X) (map (fun s => Some (Conn s [] None false [] [])) subs) [] 0 [] [].
 End generic.
 
 (* the model: the index is the trie; Trie.Lookup without share-group picks *)
